@@ -111,4 +111,23 @@ def applyFrom (doc : List Nat) (lines : List (List Nat)) : Nat → List Edit →
 def applyEdits (lines : List (List Nat)) (es : List Edit) : List Nat :=
   applyFrom (joinWith [cNL] lines) lines 0 es
 
+
+/-! ## The formatter's text over the same fragments, and "equal up to trailing blank lines" -/
+
+/-- the joining loop of `Fmt` over byte-level fragments (same as `fmtJoin` on rune text) -/
+def joinFrags : List Edit → Option Nat → List Nat
+  | [], _ => []
+  | d :: ds, lastEnd =>
+    (match lastEnd with
+     | some e => if d.fromLine > e then [cNL] else []
+     | none => []) ++ d.newText ++ joinFrags ds (some d.toLine)
+
+/-- drop trailing lines that are blank (`blank` decides "empty or whitespace-only") -/
+def stripTrailing (blank : List Nat → Bool) (ls : List (List Nat)) : List (List Nat) :=
+  (ls.reverse.dropWhile blank).reverse
+
+/-- equal up to trailing blank lines and a final newline -/
+def EqT (blank : List Nat → Bool) (a b : List Nat) : Prop :=
+  stripTrailing blank (splitLines a) = stripTrailing blank (splitLines b)
+
 end J5V.Bcl
